@@ -349,7 +349,12 @@ def regex_uniform(n, greedy):
     if t == "group":
         return [t, regex_uniform(n[1], greedy)]
     if t == "rep":
-        return [t, regex_uniform(n[1], greedy), n[2], greedy]
+        k = n[2]
+        if k[0] == "n" and k[1] == 0:
+            # `x{0}` inside a repeated group sends libyara 4.5.5's regex engine into an endless loop
+            # (`/1_(x{0}b)+\\x2e/` on `1_b.`): not generated
+            k = ["n", 1]
+        return [t, regex_uniform(n[1], greedy), k, greedy]
     return n
 
 
@@ -788,6 +793,12 @@ class C07(Prop):
 
     # ---------------------------------------------------------------- Coq term
     def term(self, ctx, case, out):
+        if isinstance(out, dict) and out.get("hang") == "yara":
+            ctx.count("oracle_hang")          # libyara did not return within 20 s: nothing to compare with
+            return (True, True, 0)
+        if isinstance(out, dict) and out.get("hang") == "boreal":
+            ctx.count("boreal_hang")          # libyara answered, boreal did not return within 20 s
+            return (True, False, 0)
         if not isinstance(out, dict) or "yara" not in out:
             ctx.count("harness_crash")
             return (False, False, 0)
@@ -826,7 +837,7 @@ class C07(Prop):
                                                gbool(not errs))
 
     def nontrivial(self, case, out):
-        if not isinstance(out, dict) or "scans" not in out.get("yara", {}):
+        if not isinstance(out, dict) or "scans" not in (out.get("yara") or {}):
             return None
         some_match = False
         verdicts = set()
